@@ -435,6 +435,66 @@ func (c14Engine) Exec(t *testing.T, cc any) *simrt.Result {
 			os.RemoveAll(snap)
 		}
 		if c.Large > 0 {
+			// ---- 5L. the handler flushes the large batch as ONE batch; the disk
+			// breaks for good shortly before the end of the first attempt, so every
+			// retry fails too and the handler gives the batch up: every answer is
+			// the one from before the batch
+			dl := fresh("handler-large")
+			if dl == nil {
+				return
+			}
+			distinct := map[string]bool{}
+			for _, e := range batch {
+				distinct[e.ID] = true
+			}
+			lctx, lcancel := context.WithCancel(bg)
+			hl, err := mocsqlite.NewSQLiteHandler(lctx, dl.db, &mocsqlite.SQLiteHandlerOption{EventBulkInsertNum: len(distinct), EventBulkInsertDur: 0, MaxLimit: mocsqlite.NoLimit})
+			if err != nil {
+				sim.Res.Harness = "NewSQLiteHandler: " + err.Error()
+				lcancel()
+				return
+			}
+			brokenFrom, begins, refused := N-1-c.FailPair[0]%3, 0, 0
+			plan.FailAt = 0
+			plan.Hook = func(n int, what string) error {
+				if what == "begin" {
+					begins++
+					return nil
+				}
+				if n >= brokenFrom {
+					refused++
+					return simrt.ErrInjected
+				}
+				return nil
+			}
+			plan.Arm()
+			cll := sim.NewClient(bg, "hl", nil)
+			cll.Serve(hl)
+			for i, e := range batch {
+				cll.Do(simrt.Op{Kind: "send", Msg: &simrt.Msg{T: "EVENT", EvObj: e}})
+				if i%32 == 31 {
+					sim.Drive() // (the client's queue of injected operations is bounded)
+				}
+			}
+			sim.Drive()
+			st.Fault("disk-broken-for-good-late-in-large-batch")
+			sim.Advance(1*time.Second + 10*time.Millisecond)
+			sim.Advance(2*time.Second + 10*time.Millisecond)
+			sim.Advance(4*time.Second + 10*time.Millisecond)
+			plan.Disarm()
+			plan.Hook = nil
+			if refused == 0 {
+				st.Probe("large_handler_batch_not_flushed")
+			} else if q, qerr := c14Ask(dl, probes); qerr != nil {
+				fail("query-error", nil, "after the handler gave a large batch up: %v", qerr)
+			} else if d := c14Diff(Q0, q); d != "" {
+				fail("not-atomic", map[string]string{"at": "handler-large-batch"}, "handler batch of %d events, driver fails from call %d of %d on (%d transactions begun, all failed): an answer differs from before the batch: %s", len(batch), brokenFrom, N, begins, d)
+			}
+			cll.Cancel()
+			lcancel()
+			sim.Drive()
+			sim.Advance(4 * time.Second)
+			dl.db.Close()
 			st.NonTrivial = true
 			st.Completed = true
 			return
